@@ -373,7 +373,23 @@ class State:
         if hir is None:
             raise EvalError('no HIR for ' + path)
         env = {}
-        self.frames.append(Frame(path, env))
+        fr = Frame(path, env)
+        fr.argty = {}
+        if node is not None:
+            anodes = []
+            if node.get('k') == 'MethodCall':
+                anodes = [node.get('recv')] + list(node.get('args', []))
+            elif node.get('k') == 'Call':
+                anodes = list(node.get('args', []))
+            for pp, an in zip(hir['params'], anodes):
+                if pp.get('k') == 'Bind' and an is not None:
+                    t = an.get('ty')
+                    if an.get('k') == 'Path' and an.get('res') == 'local' and self.frames and \
+                            an.get('id') in getattr(self.frames[-1], 'argty', {}):
+                        t = self.frames[-1].argty[an['id']]
+                    if t:
+                        fr.argty[pp['id']] = t
+        self.frames.append(fr)
         self.depth += 1
         try:
             params = hir['params']
@@ -392,17 +408,23 @@ class State:
 
     def call_closure(self, cv, args, node):
         key = cv[1]
-        c, env = self.closures[key]
+        c, env, frame = self.closures[key]
         params = c['params']
         if len(params) != len(args):
             raise EvalError('closure arity mismatch')
         for p, a in zip(params, args):
             if not self.match(p, a, env, irrefutable=True):
                 raise EvalError('closure param mismatch')
+        if frame is not None:
+            self.frames.append(frame)
         try:
-            return self.expr(c['body'], env)
-        except ReturnEx as r:
-            return r.v
+            try:
+                return self.expr(c['body'], env)
+            except ReturnEx as r:
+                return r.v
+        finally:
+            if frame is not None:
+                self.frames.pop()
 
     def resolve_impl(self, callee, trait, recv_ty, method):
         """trait method called on a concrete receiver: find the impl method path"""
@@ -435,6 +457,9 @@ class State:
             raise PanicEx(node.get('mac', 'panic') if node else 'panic', node.get('l') if node else None)
         if npath in self.policy.stubs:
             return self.policy.stubs[npath](self, args, node)
+        conv = self.local_conversion(npath, args, node, recv_ty)
+        if conv is not None:
+            return self.call_path(conv, args[:1], node)
         r = self.builtin(npath, args, node)
         if r is not NOTBUILTIN:
             return r
@@ -449,6 +474,47 @@ class State:
         if is_eff:
             self.effect('call', norm_path(target), args, node)
         return ('call', norm_path(target), tuple(args))
+
+    def local_conversion(self, npath, args, node, recv_ty):
+        """Into/From/TryInto/TryFrom whose target is a local type with a local impl: resolve to that impl"""
+        table = {'std::convert::Into::into': ('From', 'from', False), 'std::convert::From::from': ('From', 'from', False),
+                 'std::convert::TryInto::try_into': ('TryFrom', 'try_from', True),
+                 'std::convert::TryFrom::try_from': ('TryFrom', 'try_from', True)}
+        if npath not in table or node is None:
+            return None
+        tr, meth, fallible = table[npath]
+        target = node.get('ty')
+        if not target:
+            return None
+        if fallible:
+            ta = ty_args(target)
+            if not ta:
+                return None
+            target = ta[0]
+        target = strip_ty(target)
+        src = recv_ty
+        if src is None and node.get('args'):
+            src = node['args'][0].get('ty')
+        if src is None and node.get('recv'):
+            src = node['recv'].get('ty')
+        # inside an inlined generic fn the receiver's declared type is a type parameter:
+        # use the concrete type the caller passed
+        rn = node.get('recv') if node.get('k') == 'MethodCall' else (node.get('args') or [None])[0]
+        if rn is not None and rn.get('k') == 'Path' and rn.get('res') == 'local' and self.frames:
+            at = getattr(self.frames[-1], 'argty', {})
+            if rn.get('id') in at:
+                src = at[rn['id']]
+        if src is None:
+            return None
+        src = strip_ty(src)
+        cand = '<%s as std::convert::%s<%s>>::%s' % (target, tr, src, meth)
+        if cand in self.f.hir:
+            return cand
+        pre = '<%s as std::convert::%s<' % (target, tr)
+        c = [p for p in self.f.hir if p.startswith(pre) and p.endswith('::' + meth) and ty_head(p[len(pre):]) == ty_head(src)]
+        if len(c) == 1:
+            return c[0]
+        return None
 
     # -------------------------------------------------------------- builtins
     def builtin(self, p, args, node):
@@ -1070,7 +1136,7 @@ class State:
 
     def e_Closure(self, e, env):
         key = (e.get('def'), len(self.closures))
-        self.closures[key] = (e, env)
+        self.closures[key] = (e, env, self.frames[-1] if self.frames else None)
         return ('closure', key)
 
     def e_If(self, e, env):
